@@ -385,7 +385,10 @@ theorem text_roundtrip (t : Expr) (h : Frag t) : parseText (exprToSource t) = so
     and its `(` / `[` / `.name`; in a conditional at least one blank (no line break) behind
     `if`, at least one layout atom on each side of `then` and of `else`; in a lambda blanks in
     front of `=>`, anything behind it, and the parentheses around a single required / optional
-    parameter may go): the grammar yields the same items, and the same tree. -/
+    parameter may go; a string literal in either quote character that does not occur in it; in
+    a record the layout of a list, blanks only in front of a colon and inside the brackets of a
+    computed key, anything behind the colon, and a static key bare when it is an identifier or
+    as a string literal): the grammar yields the same items, and the same tree. -/
 theorem layout_insensitive (t : Expr) (h : Frag t) (c : CST) (hr : Relayout t c) :
     (∀ fuel, fuelFor c.text ≤ fuel → exprItems fuel c.text = some (items t, [])) ∧
     parseText (String.ofList c.text) = some t := by
@@ -688,6 +691,151 @@ example : reads "if  a\nthen\n b\n else\tc" = some "if a then b else c" ∧
     reads "if a then b" = none ∧ reads "if a then b elsec" = none ∧ reads "iffy" = some "iffy" ∧
     reads "x => if a then b else c via f" = some "(x) => if a then b else c via f" := by
   decide +kernel
+
+/-! #### string literals -/
+
+/-- A STRING LITERAL round-trips EXACTLY when the string does not contain both kinds of quote:
+    the grammar has no escapes (`string_value` is every character up to the opening quote
+    character), so `"…"` denotes any string without `"`, `'…'` any string without `'`, and no
+    literal denotes a string with both. -/
+theorem string_literal_roundtrip_iff (s : String) :
+    parseText (exprToSource (.str s)) = some (.str s) ↔ Frag (.str s) :=
+  string_roundtrip_iff s
+
+/-- … for a string with both, the printer writes the parenthesised concatenation
+    `("a" + '"' + "b")` (C07 `string_with_both_quotes_is_concatenation`), which is a text of the
+    fragment and is read back — to the left-nested `+` of the string literals of its pieces
+    (`bothTree`; the contents of the pieces concatenate to the string), NOT to the string node:
+    the text round trip holds up to evaluating that `+`, not as trees. -/
+theorem both_quotes_string_reads_back_as_concatenation (s : String)
+    (h1 : '"' ∈ s.toList) (h2 : '\'' ∈ s.toList) :
+    ¬ Frag (.str s) ∧ parseText (exprToSource (.str s)) = some (bothTree s) ∧
+      bothTree s ≠ .str s ∧ (PrintL.pieces s.toList).flatten = s.toList ∧
+      ∃ p0 rest, PrintL.pieces s.toList = p0 :: rest ∧
+        bothTree s = strSum (.str (String.ofList p0)) rest := by
+  refine ⟨?_, both_quotes_parse s h1 h2, bothTree_ne_str s h1 h2, PrintL.pieces_flatten _, ?_⟩
+  · simp [Frag, frag_str_iff, bothQuotes, h1, h2]
+  · unfold bothTree
+    cases hp : PrintL.pieces s.toList with
+    | nil =>
+      have := PrintL.pieces_flatten s.toList
+      rw [hp] at this
+      rw [← this] at h1
+      cases h1
+    | cons p0 rest => exact ⟨p0, rest, rfl, rfl⟩
+
+/-- `"a b" + 'say "hi"'[0] == "it's //" via f` : the printer's choice of quote; a literal may
+    contain the other quote, blanks, `//`; postfix forms apply to a literal -/
+private abbrev u12 : Expr :=
+  .bin .via (.bin .eq (.bin .add (.str "a b") (.access (.str "say \"hi\"") (.num ⟨0⟩))) (.str "it's //")) xf
+example : Frag u12 := by decide +kernel
+example : exprToSource u12 = "\"a b\" + 'say \"hi\"'[0] == \"it's //\" via f" := by decide +kernel
+example : parseText (exprToSource u12) = some u12 := text_roundtrip u12 (by decide +kernel)
+example : reads "\"a b\" + 'say \"hi\"'[0] == \"it's //\" via f" =
+    some "\"a b\" + 'say \"hi\"'[0] == \"it's //\" via f" := by decide +kernel
+
+/-- re-layout of a string literal: the OTHER quote character, when it does not occur in the
+    string (`CST.LayoutOk` of `.str`); `'a b'+"x"` is a re-layout of `"a b" + "x"` -/
+private abbrev u13 : Expr := .bin .add (.str "a b") (.str "x")
+private abbrev c13 : CST := .bin .add (.str false "a b") [] [] (.str true "x")
+example : String.ofList c13.text = "'a b'+\"x\"" := by decide +kernel
+example : Relayout u13 c13 := ⟨by rfl, by rfl, by rfl, by decide +kernel⟩
+example : parseText (String.ofList c13.text) = some u13 :=
+  (layout_insensitive u13 (by decide +kernel) c13
+    ⟨by rfl, by rfl, by rfl, by decide +kernel⟩).2
+/-- the `string` rule on the model (and on the real parser, see the harness): no escapes, the
+    literal ends at the first occurrence of its opening quote; any other character — a line
+    break, `//`, the other quote — belongs to it; nothing may follow directly but a postfix or
+    infix operator -/
+example : reads "'a'" = some "\"a\"" ∧ reads "\"\"" = some "\"\"" ∧ reads "\"a" = none ∧
+    reads "\"a\"b" = none ∧ reads "\"a\"\"b\"" = none ∧ reads "\"a\\\"" = some "\"a\\\"" ∧
+    reads "\"a\nb // c\"" = some "\"a\nb // c\"" ∧ reads "\"a\"+'b'" = some "\"a\" + \"b\"" ∧
+    reads "-\"a\"!" = some "-\"a\"!" ∧ reads "\"a\".b(\"c\")" = some "\"a\".b(\"c\")" ∧
+    reads "[\"a\", ...\"b\"]" = some "[\"a\", ...\"b\"]" ∧
+    reads "x => \"a\"" = some "(x) => \"a\"" ∧
+    reads "if \"a\" then 'b' else \"c\"" = some "if \"a\" then \"b\" else \"c\"" := by
+  decide +kernel
+/-- a string with both kinds of quote: not in the fragment; printed as a concatenation, which is
+    read back as the concatenation (by the theorem, and computed) -/
+example : ¬ Frag (.str "a\"b'c") ∧ Frag (.str "a\"bc") ∧ Frag (.str "ab'c") := by decide +kernel
+example : exprToSource (.str "a\"b'c") = "(\"a\" + '\"' + \"b'c\")" := by decide +kernel
+example : parseText (exprToSource (.str "a\"b'c")) = some (bothTree "a\"b'c") :=
+  (both_quotes_string_reads_back_as_concatenation _ (by decide +kernel) (by decide +kernel)).2.1
+example : exprToSource (bothTree "a\"b'c") = "\"a\" + '\"' + \"b'c\"" ∧
+    reads "(\"a\" + '\"' + \"b'c\")" = some "\"a\" + '\"' + \"b'c\"" := by decide +kernel
+
+/-! #### record literals -/
+
+private abbrev en (k : Key) (v : Expr) : Entry := .mk [] k v none
+/-- `{a: 1, "k 2": x, [f(a)]: [b], c, ...g, "it's": {}, 'say "x"': (y) => {y}}` : a bare key, keys
+    that need quotes (the printer's choice of quote), a computed key, a shorthand, a spread, the
+    empty record, a record as a lambda body -/
+private abbrev u14 : Expr :=
+  .record [en (.static "a") one, en (.static "k 2") xx, en (.dyn (.call xf [xa])) (.list [it xb]),
+    en (.short "c") .null, en (.spread (.spread (.ident "g"))) .null, en (.static "it's") (.record []),
+    en (.static "say \"x\"") (.lambda [.req "y"] (.record [en (.short "y") .null]))]
+example : Frag u14 := by decide +kernel
+example : exprToSource u14 =
+    "{a: 1, \"k 2\": x, [f(a)]: [b], c, ...g, \"it's\": {}, 'say \"x\"': (y) => {y}}" := by
+  decide +kernel
+example : parseText (exprToSource u14) = some u14 := text_roundtrip u14 (by decide +kernel)
+example : items u14 = [.prim u14] := by rfl
+example : reads "{a: 1, \"k 2\": x, [f(a)]: [b], c, ...g, \"it's\": {}, 'say \"x\"': (y) => {y}}" =
+    some "{a: 1, \"k 2\": x, [f(a)]: [b], c, ...g, \"it's\": {}, 'say \"x\"': (y) => {y}}" := by
+  decide +kernel
+
+/-- the formatter's multi-line record layout `{⏎  a: 1,⏎  "b c": x,⏎}` is a re-layout; so is
+    quoting a bare key, the other quote character, blanks in front of the colon and a line
+    break behind it: `{ 'a' :⏎1 , "b c":x }` -/
+private abbrev u15 : Expr := .record [en (.static "a") one, en (.static "b c") xx]
+private abbrev c15 : CST :=
+  .record [.lf, .sp, .sp]
+    (.cons (.pairId "a" [] [.sp] (.atom one)) [] [.lf, .sp, .sp]
+      (.last (.pairStr true "b c" [] [.sp] (.atom xx))))
+    (.comma [] [.lf])
+private abbrev c15' : CST :=
+  .record [.sp]
+    (.cons (.pairStr false "a" [.sp] [.lf] (.atom one)) [.sp] [.sp]
+      (.last (.pairStr true "b c" [] [] (.atom xx))))
+    (.plain [.sp])
+example : String.ofList c15.text = "{\n  a: 1,\n  \"b c\": x,\n}" ∧
+    String.ofList c15'.text = "{ 'a' :\n1 , \"b c\":x }" := by decide +kernel
+example : Relayout u15 c15 ∧ Relayout u15 c15' :=
+  ⟨⟨by rfl, ⟨⟨by decide +kernel, rfl, trivial⟩, rfl, ⟨by rfl, rfl, trivial⟩⟩, rfl⟩,
+   ⟨by rfl, ⟨⟨by rfl, rfl, trivial⟩, rfl, ⟨by rfl, rfl, trivial⟩⟩, rfl⟩⟩
+example : parseText (String.ofList c15.text) = some u15 ∧
+    parseText (String.ofList c15'.text) = some u15 :=
+  ⟨(layout_insensitive u15 (by decide +kernel) c15
+      ⟨by rfl, ⟨⟨by decide +kernel, rfl, trivial⟩, rfl, ⟨by rfl, rfl, trivial⟩⟩, rfl⟩).2,
+   (layout_insensitive u15 (by decide +kernel) c15'
+      ⟨by rfl, ⟨⟨by rfl, rfl, trivial⟩, rfl, ⟨by rfl, rfl, trivial⟩⟩, rfl⟩).2⟩
+/-- `record` is non-atomic like `list` (blanks and PLAIN line breaks between its tokens, blanks
+    only in front of a comma, a trailing comma needs no line break); `record_pair` is non-atomic
+    too: blanks (no line break) in front of the colon, any layout behind it; inside the brackets
+    of a computed key blanks only; `...e` takes no blank; a pair is tried before a shorthand -/
+example : reads "{ a : 1 , b }" = some "{a: 1, b}" ∧ reads "{a: 1,}" = some "{a: 1}" ∧
+    reads "{a\n: 1}" = none ∧ reads "{a:\n1}" = some "{a: 1}" ∧ reads "{a: // c\n 1}" = some "{a: 1}" ∧
+    reads "{a: 1\n, b}" = none ∧ reads "{,}" = some "{}" ∧ reads "{\n}" = some "{}" ∧
+    reads "{[ a ]: 1}" = some "{[a]: 1}" ∧ reads "{[\na]: 1}" = none ∧ reads "{[a]}" = none ∧
+    reads "{... a}" = none ∧ reads "{...a.b}" = some "{...a.b}" ∧ reads "{a b}" = none ∧
+    reads "{a: b: c}" = none ∧ reads "{a.b}" = none := by decide +kernel
+/-- keys: a reserved word is no bare key (the printer quotes it), a built-in name is an ordinary
+    key, a quoted identifier is printed bare; a record directly behind an operand is no postfix
+    form; postfix forms apply to a record -/
+example : reads "{if: 1}" = none ∧ reads "{\"if\": 1}" = some "{\"if\": 1}" ∧
+    reads "{sqrt: 1, max}" = some "{sqrt: 1, max}" ∧ reads "{'abc': 1}" = some "{abc: 1}" ∧
+    reads "{\"\": 1}" = some "{\"\": 1}" ∧ reads "a{b}" = none ∧ reads "{a: 1}.a" = some "{a: 1}.a" ∧
+    reads "{a: 1}[\"a\"]" = some "{a: 1}[\"a\"]" ∧ reads "x => {a: x}" = some "(x) => {a: x}" ∧
+    reads "{a: x => x, b: 1}" = some "{a: (x) => x, b: 1}" := by decide +kernel
+/-- outside the fragment: comments, a key with both kinds of quote (printed as a COMPUTED key
+    over the concatenation, which reads back as a computed key), a shorthand that is no
+    identifier, a shorthand or spread entry with a value -/
+example : ¬ Frag (.record [.mk ["// c"] (.static "a") one none]) ∧
+    ¬ Frag (.record [en (.static "a\"b'") one]) ∧ ¬ Frag (.record [en (.short "if") .null]) ∧
+    ¬ Frag (.record [en (.short "a") one]) ∧ ¬ Frag (.record [en (.spread xa) .null]) ∧
+    Frag (.record []) ∧ Frag (.record [en (.static "if") one]) := by decide +kernel
+example : exprToSource (.record [en (.static "a\"b'") one]) = "{[(\"a\" + '\"' + \"b'\")]: 1}" ∧
+    reads "{[(\"a\" + '\"' + \"b'\")]: 1}" = some "{[\"a\" + '\"' + \"b'\"]: 1}" := by decide +kernel
 end text
 
 end Blots.C10
